@@ -60,11 +60,13 @@ Create(f, t) ==
   /\ UNCHANGED <<now, fin, task, heap>>
   /\ Emit([op |-> "create", f |-> f, t |-> t])
 
+\* delay(d) = deadline(now + d), saturating (d >= INF stands for durations beyond the u64 range)
+Sat(x) == IF x >= INF THEN INF ELSE x
 Delay(f, d) ==
   /\ st[f] = "none" /\ \A g \in Slots : g < f => st[g] # "none"
-  /\ st' = [st EXCEPT ![f] = "unreg"] /\ expiry' = [expiry EXCEPT ![f] = now + d]
+  /\ st' = [st EXCEPT ![f] = "unreg"] /\ expiry' = [expiry EXCEPT ![f] = Sat(now + d)]
   /\ UNCHANGED <<now, fin, task, heap>>
-  /\ Emit([op |-> "delay", f |-> f, d |-> d, res |-> "ok", val |-> now + d])
+  /\ Emit([op |-> "delay", f |-> f, d |-> d, res |-> "ok", val |-> Sat(now + d)])
 
 Poll(f, w) ==
   /\ st[f] # "none" /\ ~fin[f]
